@@ -43,6 +43,10 @@ class Fmt:
             return str(t[1])
         if k == "b":
             return "[" + self.bdd(t[1], d) + "]"
+        if k == "ITE":
+            alg = getattr(self, "alg", None)
+            cs = alg.bdd.to_str(t[1], lambda a: self.f(a, d + 1)) if alg is not None else "B%d" % t[1]
+            return "if %s {%s} else {%s}" % (cs, F(t[2]), F(t[3]))
         if k == "B":
             alg = getattr(self, "alg", None)
             if alg is None:
